@@ -15,6 +15,7 @@ for d in $V/seeded/*/; do
   echo "$(basename $d)" | grep -Eq "$FILTER" || continue
   n=$(basename "$d"); id=${n%%-*}
   [ -f "$d/patch.diff" ] || continue
+  if [ -f "$d/neutralised" ]; then echo "| $n | $id | - | $(cat $d/neutralised) | |" >> "$TMP"; continue; fi
   checks="$id"
   [ -f "$d/also_checks" ] && checks="$checks $(cat $d/also_checks)"
   for c in $checks; do
